@@ -8,7 +8,7 @@ CONSTANTS
   Positions = {"global"}
   Kinds = {"summary"}
   LogSet <- LogB
-  Dump = FALSE
+  Dump = TRUE
 INIT Init
 NEXT Next
-INVARIANTS SummarySelectsThatDay FileOrderKept
+INVARIANTS SummarySelectsThatDay FileOrderKept DumpInv
